@@ -33,6 +33,7 @@ pub mod c12quic;
 pub mod c13;
 pub mod c13bin;
 pub mod c14;
+pub mod c14sess;
 pub mod c14tls;
 pub mod c15;
 pub mod c15fwd;
